@@ -658,16 +658,22 @@ func c15Negatives(tier string, types []*c15Ty, fams []*c15Fam) []*c15Neg {
 				c15Fun("g{n}", c15P1, c15RetT, []string{"Gib a zurück."}, "g{n} <a>"), n)
 		}}
 	for _, site := range []string{"importer", "importer-fn", "in-generic"} {
-		for _, t := range types {
+		for ti, t := range types {
 			ng, cx := mk(csv, site)
 			ng.key = "callsitevar:" + t.key + ":" + site + ":first"
 			ng.tuple = t.key
 			ng.kindIf = "differs-from-twin"
 			v := fmt.Sprintf("nurhier%d", ng.n)
+			// the name that exists only at the call site is a variable or (every second type) a Konstante
+			vdecl := "Die Zahl " + v + " ist 5."
+			if ti%2 == 1 {
+				vdecl = "Die Konstante " + v + " ist 5."
+				ng.key = "callsitevar:" + t.key + ":" + site + ":konstante:first"
+			}
 			if site == "importer-fn" {
-				ng.stmts = append(ng.stmts, c15Stmt{text: "Die Zahl " + v + " ist 5.", what: "local variable of the calling function"})
+				ng.stmts = append(ng.stmts, c15Stmt{text: vdecl, what: "local declaration of the calling function"})
 			} else {
-				ng.mDecl = "Die Zahl " + v + " ist 5.\n"
+				ng.mDecl = vdecl + "\n"
 			}
 			w := "the body names the variable " + v + " which exists only at the call site (the specialised twin is rejected)"
 			ng.stmts = append(ng.stmts, c15Stmt{cx.fn("f") + " " + t.vals[0] + ".", true, w},
